@@ -182,5 +182,5 @@ def traces(tier="quick"):
 MIN_OBLIGATIONS = {"quick": 6, "thorough": 6}
 LEVEL = "proof"
 TRUSTED = ["A-GRAPH, A-REAL, own ring engine (see C01)"]
-ASSUMPTIONS = ["ONLY the per-call clauses `sens`, `writeback` and the linearisation / noise arguments of the covariance propagation (lemma L-ERRDYN, stated) are decided; the clause 'the estimate converges / no NaN over the message history' is a whole-trajectory property and is not decided by any contract here",
+ASSUMPTIONS = ["ONLY the per-call clauses `sens`, `writeback` and the linearisation / noise arguments of the covariance propagation (lemma L-ERRDYN: exact part machine-checked in Lean 4 / mathlib, lemmas/ErrDyn.lean; first-order step stated) are decided; the clause 'the estimate converges / no NaN over the message history' is a whole-trajectory property and is not decided by any contract here",
                "callee contract of util.sqrt_correct from C10"]
